@@ -69,9 +69,9 @@ def events(src, n):
         return
     AC2 = ab.cfg(C2)
     long_ws = [w for w in ws if len(w) >= 2] or ws
-    for w0 in rng.sample(long_ws, min(len(long_ws), 2)):
+    for w0 in rng.sample(long_ws, min(len(long_ws), 1)):
         k = rng.randrange(3)
-        w = w0 + u if k == 0 else u + w0 if k == 1 else w0 + u + w0[:2]
+        w = w0 + u if k == 0 else u + w0 if k == 1 else w0[:2] + u + w0[:2]
         X, exc = guarded(lambda: cfg_cyk_matrix(C2, w))
         cells = []
         if exc == "none":
